@@ -240,7 +240,9 @@ class NativeFilestore(VirtualFilestore):
             with open(file, "x"):
                 pass
             return FilestoreResponseStatusCode.CREATE_SUCCESS
-        except OSError:
+        except (OSError, ValueError):
+            # A ValueError is raised for a file name the operating system can not represent,
+            # for example a name with an embedded null byte.
             _LOGGER.exception(f"Creating file {file} failed")
             return FilestoreResponseStatusCode.CREATE_NOT_ALLOWED
 
